@@ -4,6 +4,7 @@ package e3
 
 import (
 	"fmt"
+	"strings"
 	"time"
 
 	"github.com/free5gc/go-upf/internal/report"
@@ -152,7 +153,17 @@ func c18Check(x *vsched.Exec, r vsched.Result) []vsched.Finding {
 		return []vsched.Finding{{Sig: "INFRA:setup", What: s}}
 	}
 	w, _ := x.V["w"].(*world)
-	if w == nil || r.Deadlock != "" || len(r.Panics) > 0 || r.Truncated {
+	if r.Truncated && r.Deadlock == "" && len(r.Panics) == 0 {
+		// the horizon is an order of magnitude beyond what these scenarios need (the longest execution on the
+		// repaired tree has about 1300 scheduling points): an execution that is still running there keeps taking
+		// steps without coming to rest - threads feeding each other (or one thread feeding itself) for ever
+		tail := r.Trace
+		if len(tail) > 12 {
+			tail = tail[len(tail)-12:]
+		}
+		return []vsched.Finding{{Sig: "no-progress:still-running-at-the-horizon", What: fmt.Sprintf("the execution has not come to rest after %d scheduling points (no thread is blocked for good, but the system keeps stepping without finishing its work); last steps: %s", len(r.Points), strings.Join(tail, " | "))}}
+	}
+	if w == nil || r.Deadlock != "" || len(r.Panics) > 0 {
 		return nil // deadlocks and panics are reported by the explorer itself
 	}
 	return w.settle(func(rep [3][]*smf.Msg) []vsched.Finding {
